@@ -28,12 +28,15 @@ open LoomVerif
 #print axioms Park.unpark
 #print axioms Park.unpark_wakes_lock_waiter
 #print axioms Park.unpark_raises_causality_at_once
-#print axioms Park.release_loses_token
+#print axioms Release.keeps_token
+#print axioms Park.release_keeps_token
 #print axioms Condvar.notify_one_fifo
 #print axioms Condvar.notify_all
 #print axioms Condvar.wait_enqueues_releases_parks
 #print axioms Condvar.reacquires
 #print axioms Join.after_exit
+#print axioms EpiRun_spelled_out
+#print axioms Join.after_destructors
 #print axioms Join.waits_for_flag
 #print axioms Join.hb
 #print axioms Notify.example
